@@ -201,7 +201,7 @@ def cmd_check(prop, tier, nruns=None, survey=False):
         exit_code = max(exit_code, code) if code != engine.EXIT_OK else exit_code
 
     done = len(results)
-    rej = sum(rejected.values())
+    rej = sum(v for k, v in rejected.items() if not k.startswith('desync:'))
     max_rej = info.get('max_rejected_fraction', 0.5)
     if done and rej / done > max_rej and exit_code == engine.EXIT_OK:
         _print(f'HARNESS-ERROR vacuous: {rej}/{done} runs could not build their world: '
